@@ -88,3 +88,37 @@ Proof.
   - destruct (IH s' Hp H) as (d & s1 & x & s2 & r & Hin & Hpull).
     exists d, s1, x, s2, r. split; [right; exact Hin|exact Hpull].
 Qed.
+
+(* ---------- the upgrade request is written only over an established tunnel ---------- *)
+From Proofs Require Import ConnFacts TraceFacts.
+
+Definition not_request (x : titem) : Prop := match x with TWriteReq _ => False | _ => True end.
+
+Lemma nr_deliver app c e : ext_by not_request c (fst (deliver app c e)).
+Proof. ext_inst fr_deliver not_request. Qed.
+Lemma nr_close_socket c : ext_by not_request c (close_socket c).
+Proof. unfold close_socket. destruct (k_sock c); [|apply ext_refl]. exists [TSockClose]. split; [reflexivity|repeat constructor]. Qed.
+
+Lemma run_failed_connect_no_request cf app c0 cn steps : cn <> CnOk -> ext_by not_request c0 (run cf app c0 cn steps).
+Proof.
+  intros Hcn. unfold run.
+  assert (G : ext_by not_request c0 (run_gen cf app c0 cn steps)).
+  { unfold run_gen. pose proof (nr_deliver app c0 EvConnecting) as H1.
+    destruct (deliver app c0 EvConnecting) as [c1 st1]. cbn [fst] in H1.
+    destruct st1; try exact H1.
+    destruct cn; [congruence| |]; (eapply ext_trans; [exact H1|apply nr_deliver]). }
+  destruct (k_with _); [eapply ext_trans; [exact G|apply nr_close_socket]|exact G].
+Qed.
+
+Theorem request_only_over_tunnel cf app c0 script steps b :
+  (forall b', ~ In (TWriteReq b') (k_tr c0)) ->
+  In (TWriteReq b) (k_tr (run_via_proxy cf app c0 script steps)) -> negotiate script px_init = PxTunnel.
+Proof.
+  intros H0 Hin. unfold run_via_proxy, connect_via_proxy in Hin.
+  assert (Q : forall c', ext_by not_request c0 c' -> ~ In (TWriteReq b) (k_tr c')).
+  { intros c' (l & El & Fl) Hi. rewrite El in Hi. apply in_app_or in Hi as [Hi|Hi]; [|exact (H0 b Hi)].
+    rewrite Forall_forall in Fl. exact (Fl _ Hi). }
+  destruct (negotiate script px_init); [reflexivity| |]; exfalso.
+  - apply (Q _ (run_failed_connect_no_request cf app c0 CnSocketFail steps ltac:(discriminate)) Hin).
+  - revert Hin. apply Q. eapply ext_trans; [apply nr_deliver|apply ext_emit; exact I].
+Qed.
